@@ -1,4 +1,36 @@
-(* C03 — placeholder until the invariant lemmas land *)
-From PT Require Import Arena.
-Theorem C03_placeholder : True. Proof. exact I. Qed.
-Print Assumptions C03_placeholder.
+(* C03 — the arena stays one consistent rooted tree under every edit history.
+   Statements only; proofs in lemmas/RepLib.v, lemmas/WFOps.v.  Model: Arena.v.
+   WF (Spec.v): the live slots are exactly the nodes of one rose tree r (Rep: id = position, parent field,
+   ordered children all live, child-side length record = the child's own record and none kept for a
+   non-child, cached depth = distance to the root; NoDup ids; every live slot in r) or no slot is live.
+   WFS = WF + the model's association list for `child_edges` has strictly increasing keys (the model-side
+   reflection of HashMap key uniqueness; WF alone is NOT inductive: WF_not_inductive.prune_breaks_WF). *)
+From PT Require Import Arena Spec RepLib WFOps.
+
+Theorem C03_step : forall (L : Type) (O : LenOps L) (t : @arena L) (o : op), WFS t -> WFS (step O t o).
+Proof. exact @step_wf. Qed.
+Print Assumptions C03_step.
+
+(* every history of add_child / prune / compress / resolve (any choice sequence) / ladderize / rescale /
+   merge_children / reset_depths with every choice of arguments (valid, out of range, removed, root, equal) *)
+Theorem C03_histories : forall (L : Type) (O : LenOps L) (t0 : @arena L) (ops : list op),
+  WFS t0 -> WFS (fold_left (step O) ops t0).
+Proof. exact @histories_wf. Qed.
+Print Assumptions C03_histories.
+
+Theorem C03_histories_from_empty : forall (L : Type) (O : LenOps L) (ops : list (@op L)),
+  WF (fold_left (step O) ops []).
+Proof. exact @histories_WF. Qed.
+Print Assumptions C03_histories_from_empty.
+
+Theorem C03_WFS_WF : forall (L : Type) (t : @arena L), WFS t -> WF t.
+Proof. exact @WFS_WF. Qed.
+Print Assumptions C03_WFS_WF.
+
+(* the refutation that forced the strengthening: plain WF is not preserved by prune *)
+Theorem C03_WF_alone_refuted : exists t t' : @arena nat, WF t /\ prune t 1 = Ok t' /\ ~ WF t'.
+Proof.
+  destruct WF_not_inductive.prune_breaks_WF as [t' [H1 H2]].
+  eexists; exists t'; split; [exact WF_not_inductive.wf_t | split; assumption].
+Qed.
+Print Assumptions C03_WF_alone_refuted.
